@@ -36,6 +36,8 @@ def check(ctx: Ctx, rep: Report):
     rep.rule("C06.R4", "an unlocked transport close in task context follows a lock-held region without an intervening suspension", 4)
     rep.rule("C06.R5", "send_request awaits and returns the future created by this activation", 2)
     rep.rule("C06.R6", "at most one live timeout per protocol object: a timer is armed only after the previous handle was cancelled, fired or is absent; receive paths that complete a request have cancelled it", 6)
+    rep.rule("C06.R7", "one lock per protocol object and event loop: _ensure_lock creates a lock only when none exists or the running loop changed", 2)
+    r7(ctx, rep)
     ms = ctx.memo("maysuspend", lambda: MaySuspend(ctx.prog, ctx.res))
     for ci in proto_classes(ctx):
         r1(ctx, rep, ci)
@@ -300,3 +302,41 @@ def r6(ctx, rep, ci):
                       "%s completes the request with its timeout cancelled" % cb.short,
                       bad="%s completes the request (%s) and leaves its timeout armed: it fires during a later request and cancels that one [path %s]" % (
                           cb.short, norm(e["node"])[:50], e["path"].describe(8) if e["path"] else ""))
+
+
+# ----------------------------------------------------------------------- R7
+def r7(ctx, rep):
+    """Mutual exclusion needs all callers on one loop to contend for the same Lock object."""
+    prog = ctx.prog
+    base = prog.cls("InverterProtocol")
+    fn = base.methods.get("_ensure_lock")
+    if fn is None:
+        raise AnalysisError("InverterProtocol._ensure_lock not found")
+    paths = [p for p in enumerate_paths(prog, fn, no_raise) if feasible(p)]
+    nreuse = ncreate = 0
+    for p in paths:
+        creates = [i for i, ev in enumerate(p.events) if ev.kind == "stmt" and "store:_lock" in tags(ev)]
+        lock_falsy = any(ev.kind == "test" and chain(ev.node) == ("self", "_lock") and ev.data is False for ev in p.events)
+        loop_changed = any(ev.kind == "test" and isinstance(ev.node, ast.Compare) and "_running_loop" in norm(ev.node) and
+                           ((isinstance(ev.node.ops[0], (ast.Eq, ast.Is)) and ev.data is False) or (isinstance(ev.node.ops[0], (ast.NotEq, ast.IsNot)) and ev.data is True))
+                           for ev in p.events)
+        if creates:
+            ncreate += 1
+            before = p.events[:creates[0]]
+            justified = any(ev.kind == "test" and chain(ev.node) == ("self", "_lock") and ev.data is False for ev in before) or \
+                any(ev.kind == "test" and isinstance(ev.node, ast.Compare) and "_running_loop" in norm(ev.node) for ev in before) and loop_changed
+            value_ok = isinstance(p.events[creates[0]].node.value, ast.Call) and norm(p.events[creates[0]].node.value.func) == "asyncio.Lock"
+            rep.check(justified and value_ok, "C06.R7", "create:%s" % p.describe(), fn.loc(p.events[creates[0]].node),
+                      "a new asyncio.Lock is created only when none exists or the loop changed",
+                      bad="_ensure_lock creates a new lock although one exists for the running loop: concurrent callers no longer contend for the same lock [path %s]" % p.describe())
+            ret = p.end == "return" and p.end_node.value is not None and norm(p.end_node.value) == "self._lock"
+            rep.check(ret, "C06.R7", "create-returns:%s" % p.describe(), fn.loc(), "the new lock is the one returned", bad="_ensure_lock does not return the lock it stored [path %s]" % p.describe())
+        else:
+            nreuse += 1
+            ret = p.end == "return" and p.end_node.value is not None and norm(p.end_node.value) == "self._lock"
+            rep.check(ret and not lock_falsy, "C06.R7", "reuse:%s" % p.describe(), fn.loc(), "the existing lock is returned when the loop is unchanged",
+                      bad="_ensure_lock has a path that neither creates nor returns the stored lock [path %s]" % p.describe())
+    if nreuse == 0:
+        rep.violation("C06.R7", "no-reuse", fn.loc(), "_ensure_lock never re-uses the existing lock: every caller gets its own lock and requests are not serialised")
+    if ncreate == 0:
+        raise AnalysisError("_ensure_lock never creates a lock")
